@@ -85,7 +85,7 @@ def enc_c(z):
     return [z.real, z.imag]
 
 
-def gen_case(ctx, case, rng):
+def gen_case(ctx, case, rng, lowfilling=False):
     """returns a JSON-serialisable description of one case (inputs only)"""
     from openfermion import FermionOperator
     quick = ctx.tier == "quick"
@@ -96,20 +96,30 @@ def gen_case(ctx, case, rng):
     if hk in ("restricted34", "spinorb34"):
         norb = min(norb, 2 if quick else 3)
     wk = rng.choice(["single", "single", "multi", "spinbroken"])
-    if hk in ("restricted", "restricted34", "diagonal", "diagcoulomb"):
+    if lowfilling:
+        # at most one electron per spin in four orbitals: the reference path switches to its low-filling kernels
+        hk = ["restricted", "gso", "sso", "general"][case % 4]
+        norb, wk = 4, "lowfilling"
+    if hk in ("restricted", "restricted34", "diagonal", "diagcoulomb") and not lowfilling:
         # spatial Hamiltonians are refused for spin-broken wavefunctions (dimension guard)
         wk = rng.choice(["single", "single", "multi"])
     cplx = rng.random() < 0.5
     e0 = rng.choice([0, 0, 2, complex(-1, 3)])
-    w = make_wfn(ctx, wk, norb, rng)
+    if wk == "lowfilling":
+        n_, sz_ = rng.choice([(2, 0), (2, 0), (2, 0), (1, 1), (1, -1)])
+        w = ctx.fqe.Wavefunction([[n_, sz_, norb]])
+        U.random_fill(w, rng, zero_p=0.0)
+        wk = "single"
+    else:
+        w = make_wfn(ctx, wk, norb, rng)
     spec = {"ham": hk, "wfn": wk, "norb": norb, "complex": cplx, "e0": enc_c(e0), "case": case,
             "params": [[n, s, norb] for n, s in sorted(w.sectors())],
             "broken": None if wk != "spinbroken" else "spin",
             "entries": [[a, b, enc_c(c)] for a, b, c in U.wfn_entries(w)]}
     if hk == "restricted":
-        rank = rng.choice([1, 2, 2])
+        rank = rng.choice([1, 2, 2]) if not lowfilling else 2
         tens = [rand_tensor(rng, norb, r, rng.choice([0.05, 0.3, 1.0]), cplx) for r in range(1, rank + 1)]
-        if rank == 2 and rng.random() < 0.5:
+        if rank == 2 and rng.random() < 0.5 and not lowfilling:
             tens[1] = symmetrize8(tens[1])
             tens[0] = tens[0] + tens[0].T
             spec["sym8"] = True
@@ -150,7 +160,11 @@ def gen_case(ctx, case, rng):
         op = random_fermionop(rng, norb, FermionOperator, conserve_spin=(wk != "spinbroken"),
                               cplx=cplx, nterms=rng.choice([1, 1, 2, 3, 5]))
         spec["op"] = [[[list(f) for f in t], enc_c(c)] for t, c in op.terms.items()]
-        spec["nterms"] = len(op.terms)
+        from openfermion import normal_ordered as _no
+        # what counts for the route and for the findings is the operator, not its spelling: terms that cancel
+        # under normal ordering leave fewer (possibly no) operator strings
+        spec["raw_terms"] = len(op.terms)
+        spec["nterms"] = len([t for t, c in _no(op).terms.items() if t and abs(c) > 1e-12])
         tens = []
         if hk == "fermionop":
             spec["e0"] = [0.0, 0.0]
@@ -246,6 +260,9 @@ def execute(ctx, spec):
             # the C06 finding seen through apply: an operator made only of n_p n_q products is turned into a
             # DiagonalCoulomb object carrying the 2*norb spin-orbital tensor, which the (spatial) kernels refuse
             sig = "build:diagonal-coulomb-from-rank4-operator-has-dimension-2norb"
+        if hk == "fermionop" and spec.get("nterms") == 0 and spec.get("raw_terms", 0) > 2 and isinstance(exc, AssertionError):
+            # the C06 finding: more than two raw terms that normal-order to a constant -> assert len(dtypes) == 1
+            sig = "build:operator-normal-orders-to-constant"
         ctx.disagree(sig, f"apply raised {type(exc).__name__}: {exc}", spec)
         return
     bad = U.compare_wfn(out, want, tol=1e-9 if hk in ("fermionop", "sparse") else 0.0)
@@ -263,11 +280,15 @@ def execute(ctx, spec):
 
 def run(ctx):
     rng = ctx.rng
-    ncases = 260 if ctx.tier == "quick" else 3000
+    ncases = 260 if ctx.tier == "quick" else 12000
     for case in range(ncases):
         if ctx.out_of_time():
             break
         spec = gen_case(ctx, case, rng)
+        execute(ctx, spec)
+    for case in range(12 if ctx.tier == "quick" else 120):
+        spec = gen_case(ctx, 100000 + case, rng, lowfilling=True)
+        spec["lowfilling"] = True
         execute(ctx, spec)
     run_number_broken(ctx)
 
@@ -300,7 +321,7 @@ def run_number_broken(ctx):
     from openfermion import FermionOperator, hermitian_conjugated, normal_ordered
     d, rng = ctx.driver, ctx.rng
     quick = ctx.tier == "quick"
-    for case in range(40 if quick else 600):
+    for case in range(40 if quick else 2400):
         if ctx.out_of_time():
             break
         norb = rng.choice([2, 2, 3] if quick else [2, 3, 3, 4])
@@ -352,6 +373,12 @@ def run_number_broken(ctx):
         ctx.count(f"numberbroken:{fam}")
         if bad:
             sig = f"apply:numberbroken:{fam}" + (":nterms=1-2" if nterms <= 2 else "")
+            psi = {(a, b): c for a, b, c in entries}
+            shift = lambda det: complex(e0) * psi.get(det, 0)      # the scalar part is common to both routes
+            if nterms <= 2 and len(bad) > 0 and all(abs((z - shift(dt)) + (e - shift(dt))) < 1e-9 for (dt, z, e) in bad):
+                # every wrong amplitude has exactly the opposite sign: the sparse route works on the physical strings
+                # (plain iota) while the dense route works on the beta-inverted ones (iota * nbTwist)
+                sig = "apply:numberbroken:sparse-route-uses-untwisted-convention"
             ctx.disagree(sig, f"{api} on a number-broken wavefunction differs from the exact action on {len(bad)} determinants, "
                          f"e.g. {bad[0]}", desc)
 
